@@ -59,6 +59,9 @@ def run(ctx):
     for k in range(200 if T else 20):
         n = rnd.choice([10, 101, 1000, 4097, 10001, 2 ** 15 + 3] + ([2 ** 17] if T else []))
         dist = rnd.choice(["gauss", "uniform", "sine", "quantised"])
+        p = rnd.choice([(50, 1), (25, 1), (90, 1), (10, 1), (9999, 100), (1, 1), (99, 1)]) if k % 4 else [(9, 10), (1, 2), (1, 4), (3, 4)][(k // 4) % 4]   # also coverages below 1 %
+        if p[1] != 1 and p[0] < p[1] and k % 8:
+            n = max(n, rnd.choice([1000, 4097, 10001]))
         rs = np.random.RandomState(k)
         if dist == "gauss":
             x = np.round(rs.randn(n) * 300)
@@ -68,16 +71,23 @@ def run(ctx):
             x = np.round(500 * np.sin(np.arange(n) * 0.37))
         else:
             x = np.round(rs.randn(n) * 3)
-        p = rnd.choice([(50, 1), (25, 1), (90, 1), (10, 1), (9999, 100), (1, 1), (99, 1)])
-        if (n * p[0]) // (100 * p[1]) < 1 or (n * p[0]) % (100 * p[1]) == 0 and p[1] != 1:
-            continue
+        if (n * p[0]) % (100 * p[1]) == 0 and p[1] != 1:
+            continue                                  # p*len/100 an exact integer reached through a non-representable percentage: floor ambiguous in floating point
         sc = rnd.choice([1.0, 2.0 ** -20, 2.0 ** -36, 2.0 ** 10])
         si_event([int(v) for v in x], p[0], p[1], sc)
         meta.append(("si-long", n, p))
-        ctx.case(("si-long", dist, n > 10000, p, sc))
+        ctx.case(("si-long", dist, n > 10000, p, sc, (n * p[0]) // (100 * p[1]) == 0))
+    # coverage below one sample: lag = 0, the pair degenerates to a single data value
+    for data, p_ in (([3, 1, 2, 5, 4], 10), ([7], 50), ([2, 2, 9], 30), (list(range(10)), 9), ([4, 4, 4, 4], 20)):
+        si_event(list(data), p_, 1, 1.0)
+        meta.append(("si-lag0", len(data), p_))
+        ctx.case(("si-lag0", len(data), p_))
     # ADC
     def adc_event(x, n, otype, scale, as_signal):
         arr = np.array(x, dtype=float) * scale
+        if as_signal >= 3 and scale == 1.0 and np.abs(arr).max() < 120:
+            # raw integer counts in a narrow integer dtype (int16 / int8, uint8 when non-negative)
+            arr = arr.astype(np.uint8 if (as_signal == 4 and arr.min() >= 0) else (np.int8 if as_signal == 5 else np.int16))
         inp = protect(electrical_signal(arr) if as_signal == 1 else (electrical_signal(arr * 0.5, arr * 0.5) if as_signal == 2 else arr))
         with deadline(120):
             out = ADC(inp, n=n, otype=otype)
@@ -92,9 +102,11 @@ def run(ctx):
                 continue
             d = list(data)
             rnd.shuffle(d)
-            for n in (1, 2, 3):
+            for n in (1, 2, 3, 16, 5, 8):
+                if n > 3 and (sum(d) + L) % 4:
+                    continue
                 ot = "n" if (L + n) % 2 else "v"
-                adc_event(d, n, ot, 1.0, (L + n) % 3)
+                adc_event(d, n, ot, 1.0, (L + n + sum(d)) % 6)
                 meta.append(("adc", L, n, ot))
                 ctx.case(("adc-small", L, n, ot), {"ADC": [d, n, ot]} if L == 4 else None)
     for k in range(150 if T else 14):
@@ -115,8 +127,11 @@ def run(ctx):
         lag = (n * 9999) // 10000
         if np.min(srt[lag:] - srt[:n - lag]) == 0:
             continue          # degenerate full scale (hi = lo): outside the statement
-        bits, ot = rnd.choice([1, 2, 4, 8, 12]), rnd.choice(["n", "v"])
-        adc_event([int(v) for v in x], bits, ot, rnd.choice([1.0, 2.0 ** -20, 2.0 ** 10]), rnd.randrange(3))
+        bits, ot = rnd.choice([1, 2, 4, 8, 12, 16, 15, 17]), rnd.choice(["n", "v"])
+        if dist == "quantised" and k % 2:
+            adc_event([int(v) for v in x], bits, ot, 1.0, 3 + k % 3)        # small integer counts in int16 / uint8 / int8 arrays
+        else:
+            adc_event([int(v) for v in x], bits, ot, rnd.choice([1.0, 2.0 ** -20, 2.0 ** 10]), rnd.randrange(3))
         meta.append(("adc-long", n, bits, ot))
         ctx.case(("adc-long", dist, n >= 10001, bits, ot, outl))
     B = 400
